@@ -115,6 +115,7 @@ type world struct {
 	ca           *lib.CA
 	deadAddr     string
 	rht          *child // a child with --http-response-header-timeout 1s
+	bodylog      *child // a child that logs exchanges in body mode (the logger holds the bodies)
 }
 
 func (w *world) upstreamHandler(oc *lib.OConn, req *lib.Msg) lib.Action {
@@ -194,7 +195,7 @@ func startChildBin(run *lib.Run, w *world, bin, name string, extra ...string) *c
 }
 
 func main() {
-	run := lib.Start("C12", "upstream fault enumeration against the real binary as a child process: connection refused, connect time-out (unanswered address, 400 ms dial timeout), TLS failures (plain HTTP on the https port, garbage, close mid-handshake, wrong certificate), upstream proxy rejecting CONNECT with 403/407/502/503 with/without body, garbage or close instead of a CONNECT reply, rejection body cut short, origin FIN/RST after k bytes for every k of the reply head and boundary k of CL/chunked bodies, 11 malformed replies; x request kinds GET / POST with body / HEAD / https through MITM / via upstream proxy; hostile client byte streams (mutated, truncated at every offset, oversized, binary, TLS to plain listener and HTTP to TLS listener, garbage inside MITM) with a concurrent well-behaved connection; 300 idle connections against a child limited to 96 file descriptors, after which it must serve again; after every batch a probe must be served and the child must be alive; distinct = (fault class, cut position class, framing, request kind, route)")
+	run := lib.Start("C12", "upstream fault enumeration against the real binary as a child process: connection refused, connect time-out (unanswered address, 400 ms dial timeout), TLS failures (plain HTTP on the https port, garbage, close mid-handshake, wrong certificate), upstream proxy rejecting CONNECT with 403/407/502/503 with/without body, garbage or close instead of a CONNECT reply, rejection body cut short, origin FIN/RST after k bytes for every k of the reply head and boundary k of CL/chunked bodies, 11 malformed replies and 4 status lines without a reason phrase (also as an upstream refusal), an origin that stays silent against a child with --http-response-header-timeout 1s, the cut cases repeated against a child that logs bodies; x request kinds GET / POST with body / HEAD / https through MITM / via upstream proxy; hostile client byte streams (mutated, truncated at every offset, oversized, binary, TLS to plain listener and HTTP to TLS listener, garbage inside MITM) with a concurrent well-behaved connection; 300 idle connections against a child limited to 96 file descriptors, after which it must serve again; after every batch a probe must be served and the child must be alive; distinct = (fault class, cut position class, framing, request kind, route)")
 	hb := lib.StartHeartbeat()
 	root := run.RNG()
 	w := &world{run: run, hb: hb}
@@ -217,6 +218,9 @@ func main() {
 		return
 	}
 	children := []*child{direct, viaUp, tlsL}
+	if w.bodylog = startChild(run, w, "body-logging", "--log-http", "body", "--mitm", "--mitm-domains", `faulttls\.test`); w.bodylog != nil {
+		children = append(children, w.bodylog)
+	}
 	if w.rht = startChild(run, w, "response-header-timeout", "--http-response-header-timeout", "1s", "--mitm", "--mitm-domains", `faulttls\.test`); w.rht != nil {
 		children = append(children, w.rht)
 	}
